@@ -242,6 +242,10 @@ Plan gen_plan(int prop, uint64_t runseed) {
             o.fault |= F_ALLOC;
             o.fa = 1 + (r.below(3) ? 0 : r.below(3) ? r.below(3) : r.below(12));
         }
+        if (prop == P_C04 && (o.kind == S_CONSTRUCT || o.kind == S_FROM || o.kind == S_SET) && r.below(8) == 0) {
+            // malformed text in substitute mode (never throws): the result is longer or shorter than the input by amounts only the library computes
+            o.fault |= F_CORRUPT; o.fc = r.below(1 << 24); o.d = (o.d & ~(3u << 8)) | (1u << 8);
+        }
         if (META[o.kind].fam == MA && o.kind != SS_APPEND_CHAR && r.below(5) == 0) {
             // a pair: top the same stream up to within 0..23 bytes of its capacity first, so the append that follows straddles a boundary
             Op f; f.kind = SS_APPEND_CHAR; f.t = 0; f.a = o.a; f.b = r.below(95); f.c = 0; f.d = 1 + r.below(24);
